@@ -884,4 +884,111 @@ theorem runAllR_ok {σ : Type} (ovf : Bool → Nat → Int) (oracle : σ → Nat
       rw [hmax] at this
       exact this
 
+/-! ## the resource run decides exactly as `Model.Http.run` when nobody cancels and no write fails -/
+
+/-- forget the resources -/
+def eraseOut : OutcomeR → Option Outcome
+  | .ended [resp] false _ tr => some (.callback resp (tr.map (·.k)))
+  | .ended _ _ _ _ => none
+  | .abort w tr => some (.abort w (tr.map (·.k)))
+
+/-- the reader/network part of an environment -/
+def arrivals {σ : Type} (oracle : σ → Nat → Nat → σ × Turn) : σ → Nat → Nat → σ × Arrival :=
+  fun o c k => ((oracle o c k).1, (oracle o c k).2.arrival)
+
+/-- the continuation of `Model.Http.run` after a wait, in terms of `arrive` -/
+theorem run_wait {σ : Type} (ovf : Bool → Nat → Int) (oracle : σ → Nat → Nat → σ × Arrival) (f : Nat) (o' : σ) (a : Arrival)
+    (st' : St) (h' : Handler) (rest' : Bytes) (rlen' b' k : Nat) (ws : List Nat) :
+    (if k ≤ b' then run ovf oracle f o' st' h' .ok rest' rlen' b' (k :: ws) else
+      match a with
+      | .more extra =>
+        if k ≤ rlen' then
+          run ovf oracle f o' st' h' .ok rest' rlen' (if k + extra > rlen' then rlen' else k + extra) (k :: ws)
+        else run ovf oracle f o' st' h' .eof rest' rlen' rlen' (k :: ws)
+      | .eof => run ovf oracle f o' st' h' .eof rest' rlen' b' (k :: ws)
+      | .err => run ovf oracle f o' st' h' .err rest' rlen' b' (k :: ws)) =
+    run ovf oracle f o' st' h' (arrive a k rlen' b').1 rest' rlen' (arrive a k rlen' b').2 (k :: ws) := by
+  simp only [arrive]
+  split
+  · rfl
+  · cases a with
+    | more extra => (try dsimp only); split <;> rfl
+    | eof => rfl
+    | err => rfl
+
+theorem loopR_erase {σ : Type} (ovf : Bool → Nat → Int) (oracle : σ → Nat → Nat → σ × Turn)
+    (hq : ∀ o c k, (oracle o c k).2.wfail = false ∧ (oracle o c k).2.cancel = false) :
+    ∀ (f : Nat) (o : σ) (st : St) (h : Handler) (rest : Bytes) (rlen b c k : Nat) (tr : List Snap) (r : RSt),
+    eraseOut (loopR ovf oracle f o st h rest rlen b c k tr r) =
+      some (run ovf (arrivals oracle) f (oracle o c k).1 st h (arrive (oracle o c k).2.arrival k rlen b).1 rest rlen
+        (arrive (oracle o c k).2.arrival k rlen b).2 (tr.map (·.k))) := by
+  intro f
+  induction f with
+  | zero => intro o st h rest rlen b c k tr r; simp [loopR, run, eraseOut, List.map_reverse]
+  | succ f ih =>
+    intro o st h rest rlen b c k tr r
+    obtain ⟨q1, q2⟩ := hq o c k
+    simp only [loopR, run]
+    generalize hot : oracle o c k = ot at q1 q2
+    obtain ⟨o', t⟩ := ot
+    simp only at q1 q2 ⊢
+    rw [q1, q2]
+    simp only [Bool.false_and, Bool.false_eq_true, if_false]
+    generalize arrive t.arrival k rlen b = sb
+    obtain ⟨s, b2⟩ := sb
+    simp only
+    rw [← stepR_erase ovf (b2 + 1) st h s (rest.take b2) 0 (readFired (writesR t.wrote r))]
+    generalize stepR ovf (b2 + 1) st h s (rest.take b2) 0 (readFired (writesR t.wrote r)) = res
+    cases res with
+    | done resp r' => simp [eraseR, eraseOut, List.map_reverse]
+    | abort w => simp [eraseR, eraseOut, List.map_reverse]
+    | wait st' c' k' h' r' =>
+      simp only [eraseR]
+      rw [ih]
+      simp only [arrivals, List.map_cons, snap]
+      exact congrArg some (run_wait ovf _ f _ _ st' h' _ _ _ k' _).symm
+
+/-- **Refinement.**  With an environment in which the caller never cancels and no write fails, a connected
+    request of the resource model ends exactly as `Model.Http.runAll` on the same reader/network behaviour:
+    same callback argument, same sequence of wait lengths. -/
+theorem runAllR_erase {σ : Type} (ovf : Bool → Nat → Int) (oracle : σ → Nat → Nat → σ × Turn) (o : σ)
+    (ishead : Bool) (max : Nat) (data : Bytes) (hasBody : Bool)
+    (hq : ∀ o c k, (oracle o c k).2.wfail = false ∧ (oracle o c k).2.cancel = false) :
+    eraseOut (runAllR ovf oracle o ishead max data hasBody .connected) =
+      some (runAll ovf (arrivals oracle) o ishead max data) := by
+  simp only [runAllR, runAll]
+  rw [show data.length + 3 = (data.length + 2) + 1 from rfl, run]
+  simp only [List.take_zero, Nat.zero_add]
+  rw [← stepR_erase ovf 1 (initSt ishead max) .readHeader .ok [] 0
+    (callbackConnected (connFired httpRequest true) true hasBody)]
+  generalize stepR ovf 1 (initSt ishead max) .readHeader .ok [] 0
+    (callbackConnected (connFired httpRequest true) true hasBody) = res
+  cases res with
+  | done resp r' => simp [eraseR, eraseOut]
+  | abort w => simp [eraseR, eraseOut]
+  | wait st' c k h' r' =>
+    simp only [eraseR]
+    rw [loopR_erase ovf oracle hq]
+    simp only [arrivals, List.map_cons, List.map_nil, snap, List.reverse_nil, Nat.zero_sub]
+    exact congrArg some (run_wait ovf _ _ _ _ st' h' _ _ _ k _).symm
+
+/-! ## data for the non-vacuity examples of `Properties/C08.lean` -/
+
+/-- an environment: one byte per wait; the first request-buffer write completes while the second wait is
+    pending; the write in progress fails during wait number `failAt`, the caller cancels during wait number
+    `cancelAt` (waits are counted from 0) -/
+def exOracle (cancelAt failAt : Nat) (n : Nat) (_c _k : Nat) : Nat × Turn :=
+  (n + 1, { wrote := if n == 1 then 1 else 0, wfail := n == failAt, cancel := n == cancelAt, arrival := .more 0 })
+
+/-- everything a request can hold at once: header copy, header array, a body buffer, a read wait and a
+    buffer write in progress -/
+def exFull : RSt :=
+  { live := [.cookie, .reqHead, .reader, .readerBuf, .writer, .wbuf, .wbufData, .resHead, .hdrArray, .body],
+    pR := true, pW := true, pReqHead := true, pResHead := true, pHeaders := true, pBody := true, sock := true,
+    rdReg := .net, wcur := true, fds := 1 }
+
+theorem exFull_cons : Cons exFull 0 := by
+  refine ⟨rfl, fun k => (by cases k <;> rfl), fun h => (by cases h), fun h => (by cases h), fun h => (by cases h),
+    fun h => (by cases h), rfl, fun _ => rfl⟩
+
 end Percival.Proofs.HttpRes
